@@ -126,6 +126,7 @@ func (t *Trans) callStatic(fr *Frame, f *ssa.Function, argVals []ssa.Value, args
 		for _, p := range pend {
 			t.assume(fr.curReach, p(fr.st))
 		}
+		t.takeSnapshots(fr, shortFn(f))
 		return res
 	}
 	if t.canInline(f, c) {
@@ -186,6 +187,7 @@ func (t *Trans) inlineCall(fr *Frame, f *ssa.Function, c *Contract, argVals []ss
 	res, st, retCond := t.mergeReturns(sub)
 	fr.st = st
 	t.assume(fr.curReach, retCond)
+	t.takeSnapshots(fr, shortFn(f))
 	return res
 }
 
@@ -355,11 +357,19 @@ func (t *Trans) applyContract(fr *Frame, c *Contract, cname string, sig *types.S
 	if c.Trusted {
 		t.trustedUsed[c.Key] = true
 	}
-	if fr.top && fr.contract != nil {
-		for _, ab := range fr.contract.AssertBefore {
+	if t.topC != nil && t.topFrame != nil {
+		for _, ab := range t.topC.AssertBefore {
 			parts := strings.SplitN(ab.Label, "|", 2)
 			if strings.HasSuffix(cname, parts[0]) {
-				asc := &SpecCtx{t: t, fr: fr, st: fr.st, old: fr.entrySt, at: fr.curBlock}
+				// evaluated in the function under verification (its locals at the current point); the callee's
+				// arguments are visible as $<parameter name>
+				tf := t.topFrame
+				asc := &SpecCtx{t: t, fr: tf, st: fr.st, old: tf.entrySt, at: tf.curBlock, names: map[string]specVal{}}
+				for i, n := range names {
+					if i < len(args) {
+						asc.names["$"+n] = specVal{args[i], ptypes[i]}
+					}
+				}
 				t.oblige("assert", fmt.Sprintf("%s#assert.%s@%s", fr.path, labelOr(parts[1], "a"), parts[0]), tagsOr(ab.Tags, fr.tags), fr.curReach, asc.expandBool(ab.Expr), pos, "holds just before the call to "+cname)
 			}
 		}
@@ -876,4 +886,17 @@ func (t *Trans) ghostBinding(fr *Frame, callee, ghost string) (string, bool) {
 		return sc.expand(b.List[2]), true
 	}
 	return "", false
+}
+
+func (t *Trans) takeSnapshots(fr *Frame, callee string) {
+	if t.topC == nil || fr != t.topFrame {
+		return
+	}
+	for _, sn := range t.topC.Snapshots {
+		if strings.HasSuffix(callee, sn[1]) {
+			if _, done := t.snapshots[sn[0]]; !done {
+				t.snapshots[sn[0]] = fr.st
+			}
+		}
+	}
 }
